@@ -4,7 +4,7 @@
   of F10 in /repo (no timer running always sets the timer) the two agree unconditionally
   (`C18_timerUpdate_spec`); `C18_timerUpdate_zero_sets` is the regression lemma.
 -/
-import MbVerif.Proofs.SimLive
+import MbVerif.Proofs.SimFuture
 import MbVerif.Spec.C18
 
 namespace Mb.C18
@@ -119,6 +119,18 @@ theorem C18_served_before_expiry {σ : Type} (st : St σ) (p : Pick) (o : Nat) (
     (ho : p.offset = some o) (t : Int) (hm : some t ∈ st.client.schedTimer ∨ some t ∈ st.server.schedTimer)
     (hn : st.now ≤ t) : o ≤ dsince t st.now :=
   served_before_timer h ho t hm hn
+
+/-- **Simulated time never moves past a running internal timer** (trace level): the invariant
+    `FutureOK` (all pending action timers and internal timers at or after the clock) holds
+    initially and is kept by every iteration of the main loop. -/
+theorem C18_running_timer_never_in_past {σ : Type} (ρ : Oracle σ) (st st' : St σ) (r : StepRec) (hw : st.sq.WF)
+    (hf : FutureOK st) (h : step ρ st = .ok (some (r, st'))) (hreal : r.ev.time - st.now < durMax) :
+    ∀ t, (some t ∈ st'.client.schedTimer ∨ some t ∈ st'.server.schedTimer) → st'.now ≤ t := by
+  have := step_future ρ hw hf h hreal
+  intro t ht
+  rcases ht with ht | ht
+  · exact this.timC t ht
+  · exact this.timS t ht
 
 /-- **Cancel clears**: after `Cancel Internal` / `Cancel All` the machine's timer slot is empty, so
     no TimerEnd can be produced for it until a new UpdateTimer. -/
